@@ -859,7 +859,10 @@ impl<'p, 's, M: Matcher, W: WriteColor> Sink for StandardSink<'p, 's, M, W> {
         }
         if searcher.binary_detection().convert_byte().is_some() {
             if self.binary_byte_offset.is_some() {
-                return Ok(false);
+                // Don't print this line, but keep searching: whether a
+                // "binary file matches" notice is due is only known once a
+                // match has been seen (or the search has ended).
+                return Ok(true);
             }
         }
 
